@@ -225,6 +225,7 @@ func caseQSeq(cfg *RunCfg, st *Stats, w *CaseWriter, idx int) string {
 	n := 5 + r.Intn(25)
 	var ops, obs []string
 	admitted, budget := int64(0), int64(maxq)
+	capSeen := maxq
 	for k := 0; k < n; k++ {
 		res := VS("none")
 		switch x := r.Intn(12); {
@@ -247,6 +248,12 @@ func caseQSeq(cfg *RunCfg, st *Stats, w *CaseWriter, idx int) string {
 		}
 		if admitted > budget {
 			st.Fail(idx, "bucket-bound", fmt.Sprintf("sequential: %d takes admitted, initial tokens + refills = %d", admitted, budget), strings.Join(ops, " "))
+		}
+		if q.Limit() > capSeen {
+			capSeen = q.Limit()
+		}
+		if q.Tokens() > capSeen {
+			st.Fail(idx, "over-capacity", fmt.Sprintf("sequential: %d tokens in a bucket whose capacity never exceeded %d", q.Tokens(), capSeen), strings.Join(ops, " "))
 		}
 		obs = append(obs, VL(res, VZ(int64(q.Tokens()))))
 	}
@@ -271,8 +278,15 @@ func caseQConc(cfg *RunCfg, st *Stats, w *CaseWriter, idx int, lostUpdate bool) 
 	sig := ""
 	admitted, budget := int64(0), int64(maxq)
 	pendingOnce := make([]int64, nth)
+	capSeen := maxq
 	emit := func(ev string, done bool, kind string, res bool) {
 		evs = append(evs, ev)
+		if q.Limit() > capSeen {
+			capSeen = q.Limit()
+		}
+		if q.Tokens() > capSeen {
+			st.Fail(idx, "over-capacity", fmt.Sprintf("interleaved: %d tokens in a bucket whose capacity never exceeded %d", q.Tokens(), capSeen), strings.Join(evs, " "))
+		}
 		obs = append(obs, VL(resStr(done, kind, res), VZ(int64(q.Tokens()))))
 	}
 	finish := func(i int) {
@@ -858,6 +872,12 @@ func caseQLive(cfg *RunCfg, st *Stats, w *CaseWriter, idx int) string {
 			evs = append(evs, VS("tick"))
 			obs = append(obs, VL(VS("tick"), tokStr(tq), tokStr(hq)))
 			human = append(human, "tick")
+		}
+		if tq != nil && tq.Tokens() > total {
+			fail("over-capacity", fmt.Sprintf("total bucket holds %d tokens, capacity %d", tq.Tokens(), total))
+		}
+		if hq != nil && hq.Tokens() > hand {
+			fail("over-capacity", fmt.Sprintf("handler bucket holds %d tokens, capacity %d", hq.Tokens(), hand))
 		}
 		if tq != nil && admitted > budget {
 			fail("bucket-bound", fmt.Sprintf("%d calls/pushes admitted, capacity + refills = %d", admitted, budget))
